@@ -280,8 +280,12 @@ class Executor:
 
         # If we get here, no relevant inputs have changed,
         # so we can make the step pending again, to be re-queued when new inputs arrive.
+        # It is parked as deferred while a dynamic input is unavailable:
+        # nothing else keeps the next pop from selecting the step again right away,
+        # which would repeat this validation for ever.
+        # The flag is cleared when such an input changes state or is reattached.
         async with self.db:
-            step.set_state(StepState.PENDING)
+            step.set_state(StepState.PENDING, step.has_unavailable_dynamic_input())
         self._report_step_counts()
 
     async def try_skip_job(
